@@ -285,8 +285,22 @@ static void run_job(AsmJob *job, const char *source)
   }
   include_add_path(ctx, "include");
 
-  tokens_open_buffer(ctx, source);
-  ctx->tokens.filename = "input.asm";
+  if (!opts.srcfile.empty())
+  {
+    // like main/naken_asm.cpp: the source is a file (.include swaps tokens.in)
+    if (tokens_open_file(ctx, opts.srcfile.c_str()) != 0)
+    {
+      printf("Error: Couldn't open %s for reading.\n\n", opts.srcfile.c_str());
+      r.phase = 1;
+      r.exit_code = 1;
+      return;
+    }
+  }
+  else
+  {
+    tokens_open_buffer(ctx, source);
+    ctx->tokens.filename = "input.asm";
+  }
 
   if (opts.list)
   {
@@ -387,6 +401,12 @@ void nv_assemble(const std::string &source, const NvOpts &opts, NvResult &r)
       r.listing.assign(job.list_buf, job.list_len);
       free(job.list_buf);
     }
+  }
+
+  if (job.ctx->tokens.in != NULL)
+  {
+    fclose(job.ctx->tokens.in);
+    job.ctx->tokens.in = NULL;
   }
 
   delete job.ctx;
